@@ -167,6 +167,11 @@ func ListenTo(inPort drivers.In, recv func(msg Message, timestampms int32), opts
 			}
 		}
 
+		// nothing to deliver (e.g. undefined system common status)
+		if msg == nil {
+			return
+		}
+
 		recv(msg, millisec)
 	}
 
